@@ -78,7 +78,10 @@ impl<W: AsyncWrite> AsyncWrite for BufWriter<W> {
             })
             .expect("Closure always return Ok");
 
-        (_, buf) = buf_try!(self.flush_if_needed().await, buf);
+        // The data is buffered now: a failure of this eager flush must not turn the accepted
+        // write into an error, or a caller retrying it would duplicate the data. The unsent
+        // bytes stay in the buffer and the next write or flush reports the error.
+        let _ = self.flush_if_needed().await;
 
         BufResult(Ok(written), buf)
     }
@@ -104,7 +107,10 @@ impl<W: AsyncWrite> AsyncWrite for BufWriter<W> {
             })
             .expect("Closure always return Ok");
 
-        (_, buf) = buf_try!(self.flush_if_needed().await, buf);
+        // The data is buffered now: a failure of this eager flush must not turn the accepted
+        // write into an error, or a caller retrying it would duplicate the data. The unsent
+        // bytes stay in the buffer and the next write or flush reports the error.
+        let _ = self.flush_if_needed().await;
 
         BufResult(Ok(written), buf)
     }
